@@ -25,6 +25,8 @@ type Mode struct {
 	Txs     bool // GetTransaction of every known tx id
 	Addr    bool // GetUTXO + GetAmount of every key
 	Pool    bool // mempool content, submissions
+	Side    bool // Tx3 / return-deposit / draft buckets
+	Store   bool // store-level history (StoreSave / StoreRollback): the active chain is the harness' own stack
 	Prop    string
 	Cfg     string // Coq term of the model configuration
 }
@@ -40,6 +42,7 @@ type htx struct {
 	lock uint32
 	ins  []ctypes.OutPoint
 	outs []out
+	side *sideInfo
 }
 type hblk struct {
 	id     int
@@ -68,10 +71,20 @@ type H struct {
 	nFail  int
 	kinds  map[string]int
 	reorgs int
+
+	// store-level mode
+	stack   []*hblk                      // saved blocks above genesis
+	snaps   []map[string]string          // snapshot taken before each save
+	side    map[common.Uint256]*sideInfo // side data of special transactions
+	hashID  map[common.Uint256]int       // side-chain / deposit / draft hashes
+	dataID  map[string]int               // draft data
+	hashes  []common.Uint256
+	tainted map[int]bool
 }
 
 func New(f *fixture.Fixture, rng *lib.Rng, id int, mode Mode, st *lib.Stats) *H {
-	h := &H{F: f, Rng: rng, ID: id, Mode: mode, St: st, txID: map[common.Uint256]int{}, blocks: map[common.Uint256]*hblk{}, kinds: map[string]int{}}
+	h := &H{F: f, Rng: rng, ID: id, Mode: mode, St: st, txID: map[common.Uint256]int{}, blocks: map[common.Uint256]*hblk{}, kinds: map[string]int{},
+		side: map[common.Uint256]*sideInfo{}, hashID: map[common.Uint256]int{}, dataID: map[string]int{}}
 	g := &hblk{id: 0, b: f.Genesis, height: 0}
 	for _, t := range f.Genesis.Transactions {
 		g.txs = append(g.txs, h.reg(t))
@@ -98,7 +111,7 @@ func (h *H) reg(t interfaces.Transaction) *htx {
 		id = len(h.txID) + 1
 		h.txID[hash] = id
 	}
-	x := &htx{id: id, tx: t, cb: t.IsCoinBaseTx(), lock: t.LockTime()}
+	x := &htx{id: id, tx: t, cb: t.IsCoinBaseTx(), lock: t.LockTime(), side: h.side[hash]}
 	if !x.cb {
 		for _, in := range t.Inputs() {
 			x.ins = append(x.ins, in.Previous)
@@ -132,7 +145,11 @@ func (h *H) coqTx(x *htx) string {
 	for _, o := range x.outs {
 		outs = append(outs, fmt.Sprintf("mkOut %d %d", o.addr, int64(o.val)))
 	}
-	return fmt.Sprintf("mkTx %d %s %d %s %s SNone", x.id, lib.CoqBool(x.cb), x.lock, lib.CoqList(ins), "["+strings.Join(outs, "; ")+"]%Z")
+	side := "SNone"
+	if x.side != nil {
+		side = x.side.coq
+	}
+	return fmt.Sprintf("mkTx %d %s %d %s %s %s", x.id, lib.CoqBool(x.cb), x.lock, lib.CoqList(ins), "["+strings.Join(outs, "; ")+"]%Z", side)
 }
 
 func (h *H) coqBlock(b *hblk) string {
@@ -496,6 +513,12 @@ func (h *H) fail(sig, what string, extra map[string]interface{}) {
 func (h *H) Observe() {
 	// --- independent replay of the active chain
 	main := h.F.MainChain()
+	if h.Mode.Store {
+		main = []common.Uint256{h.F.Genesis.Hash()}
+		for _, b := range h.stack {
+			main = append(main, b.b.Hash())
+		}
+	}
 	set := map[ctypes.OutPoint]uinfo{}
 	onChain := map[common.Uint256]uint32{}
 	spentBy := map[ctypes.OutPoint]int{}
@@ -615,10 +638,14 @@ func (h *H) Observe() {
 			}
 			var items []string
 			for _, e := range got {
-				items = append(items, fmt.Sprintf("(%d,%d,%d)", e.id, e.idx, int64(e.val)))
+				items = append(items, fmt.Sprintf("(%d,%d,%d%%Z)", e.id, e.idx, int64(e.val)))
 			}
-			h.ev(fmt.Sprintf("EAddr %d (%s)%%Z %d%%Z", a, lib.CoqList(items), int64(bal)))
+			h.ev(fmt.Sprintf("EAddr %d %s %d%%Z", a, lib.CoqList(items), int64(bal)))
 		}
+	}
+	// --- Tx3 / return-deposit / draft buckets
+	if h.Mode.Side {
+		h.observeSide(main)
 	}
 	// --- mempool
 	if h.Mode.Pool {
@@ -830,7 +857,11 @@ func (h *H) Case() string {
 		hs = append(hs, fmt.Sprint(i))
 	}
 	g := h.blocks[h.F.Genesis.Hash()]
-	hdr := fmt.Sprintf("(mkHeader %d %s %d %s %s %s [])", h.ID, h.Mode.Cfg, h.F.Params.PowConfiguration.CoinbaseMaturity, h.coqBlock(g), lib.CoqList(ids), lib.CoqList(hs))
+	var hh []string
+	for i := 1; i <= len(h.hashID); i++ {
+		hh = append(hh, fmt.Sprint(i))
+	}
+	hdr := fmt.Sprintf("(mkHeader %d %s %d %s %s %s %s)", h.ID, h.Mode.Cfg, h.F.Params.PowConfiguration.CoinbaseMaturity, h.coqBlock(g), lib.CoqList(ids), lib.CoqList(hs), lib.CoqList(hh))
 	return fmt.Sprintf("History %s\n    [%s]", hdr, strings.Join(h.evs, ";\n     "))
 }
 
@@ -840,7 +871,11 @@ func (h *H) Finish(sh *lib.Shards, out string) {
 	h.St.LogCase(out, h.ID, map[string]interface{}{"steps": h.log, "blocks": h.nblk, "txs": len(h.txs), "reorgs": h.reorgs})
 	_, th := h.F.Tip()
 	key := fmt.Sprintf("%v", h.log)
-	h.St.Count(key, th >= 2 && len(h.txs) > 4, "history")
+	nontrivial := th >= 2 && len(h.txs) > 4
+	if h.Mode.Store {
+		nontrivial = h.kinds["rollback:ok"] > 0 && len(h.txs) > 3
+	}
+	h.St.Count(key, nontrivial, "history")
 	for k, v := range h.kinds {
 		h.St.Hist[k] += v
 	}
